@@ -67,7 +67,7 @@ def programs(draw):
     popsum = 0
     seg_end_hint = []
     fault = d.choice(['overlap', 'address-too-big', 'segment-misaligned', 'reserve-misaligned', 'pad-misaligned', 'word-too-big',
-                      'word-negative', 'wflip-value-too-big', 'pad-zero', 'duplicate-label', 'reserve-w-only', 'odd-word-segment']) if d.pct() < 22 else None
+                      'word-negative', 'wflip-value-too-big', 'pad-zero', 'duplicate-label', 'reserve-w-only', 'odd-word-segment', 'end-of-memory', 'end-of-memory']) if d.pct() < 22 else None
     first = True
     if fault == 'overlap' and w > 8:
         seg_budget = max(seg_budget, d.choice([1, 1, 2]))   # overlap geometries need an earlier segment above address 0
@@ -176,6 +176,21 @@ def programs(draw):
             stmts += [['reserve', ['n', d.int(1, w - 1) + w * d.int(0, 3), 'dec']]]
         elif fault == 'reserve-w-only':
             stmts += [['reserve', ['id', 'w']], ['op', None, None]]
+        elif fault == 'end-of-memory':
+            # statements that end exactly at the last bit of the 2^w-bit memory (legal) or run 1-2 ops past it (impossible)
+            top = max([sg['stmts_end'] for sg in L.segments] + [0])
+            k = d.int(1, 3)
+            a = lim - k * dw
+            extra = d.choice([0, 0, 1, 1, 2])
+            j0 = ['n', 0, 'dec']
+            if a >= top + 2 * dw:
+                stmts += [['segment', ['n', a, 'hex']]]
+                if d.bool():
+                    stmts += [['op', None, j0]] * (k + extra)
+                else:
+                    stmts += [['op', None, j0], ['reserve', ['n', (k - 1 + extra) * dw, 'dec']]]
+            else:
+                fault = None
         elif fault == 'odd-word-segment' and w > 8:
             # a segment at an odd word, optionally re-aligned by an odd reserve: each half alone and both together put
             # an op at an odd word
